@@ -443,6 +443,24 @@ impl Monitors {
                         continue;
                     };
                     let req: SubmitRequest = req;
+                    // a submit that names a job is only accepted for an existing open job
+                    if let Some(target) = req.job_id {
+                        match self.prev_views.get(&target) {
+                            None => obs.alarm(
+                                "C13",
+                                step,
+                                "submit into an unknown job was accepted",
+                                format!("job {target}"),
+                            ),
+                            Some(v) if !v.open => obs.alarm(
+                                "C13",
+                                step,
+                                "submit into a closed job was accepted",
+                                format!("job {target}"),
+                            ),
+                            _ => {}
+                        }
+                    }
                     let jm = self.jobs.entry(*job_id).or_default();
                     if req.job_id.is_none() {
                         jm.max_fails = req.job_desc.max_fails;
